@@ -673,6 +673,15 @@ func addConst(term string, k int) string {
 	if k == 0 {
 		return term
 	}
+	if strings.HasPrefix(term, "(cidx ") {
+		// cell of a composite slice element: (cidx base stride i f) -> field offset f+k inside the same element
+		a := splitSexprArgs(term)
+		if len(a) == 5 {
+			if f, err := strconv.Atoi(a[4]); err == nil {
+				return fmt.Sprintf("(cidx %s %s %s %d)", a[1], a[2], a[3], f+k)
+			}
+		}
+	}
 	if n, err := strconv.Atoi(term); err == nil {
 		return strconv.Itoa(n + k)
 	}
@@ -724,7 +733,12 @@ func locPlusTerm(loc, idx string) string {
 	return fmt.Sprintf("(mkloc %s %s %s)", a, b, addTerms(c, idx))
 }
 
-func sliceElemLoc(s, idx string) string {
+// sliceElemLoc: address of element idx of slice s. Elements of more than one cell are addressed through the
+// uninterpreted cidx(base, stride, i, field) (= base + stride*i + field): triggers then contain no arithmetic.
+func sliceElemLoc(s, idx string, stride int) string {
+	if stride > 1 {
+		return fmt.Sprintf("(mkloc (styp %s) (sref %s) (cidx (soff %s) %d %s 0))", s, s, s, stride, idx)
+	}
 	return fmt.Sprintf("(mkloc (styp %s) (sref %s) %s)", s, s, addTerms("(soff "+s+")", idx))
 }
 
@@ -1671,6 +1685,10 @@ func (t *tr) cutLoop(b *ssa.BasicBlock, k int, entry map[string]string) map[stri
 			t.val[phi] = ns
 			if len(ns) == 1 {
 				t.typeFacts("true", ns[0], phi.Type())
+				// objects allocated in the loop body are distinct from whatever the loop variables refer to at the header
+				if r := refOf(lv[0], ns[0]); r != "" {
+					t.ptrs = append(t.ptrs, r)
+				}
 			} else {
 				t.compositeTypeFacts("true", ns, phi.Type())
 			}
